@@ -1,4 +1,4 @@
-import PkVerif.Model.Attr
+import PkVerif.Spec.Attr
 /-!
 # Lemmas for C07 (attribute folding, the incremental cache, deletion)
 -/
@@ -21,12 +21,6 @@ theorem sortBy_perm {α : Type} (le : α → α → Bool) (l : List α) : (sortB
   induction l with
   | nil => exact List.Perm.refl _
   | cons a t ih => exact (ins_perm le a _).trans (List.Perm.cons a ih)
-
-/-- in claim-date order (ties allowed) -/
-def Sorted (l : List Claim) : Prop := l.Pairwise (fun a b => a.date ≤ b.date)
-
-/-- pairwise distinct dates -/
-def DistinctDates (l : List Claim) : Prop := l.Pairwise (fun a b => a.date ≠ b.date)
 
 theorem mem_ins {α : Type} (le : α → α → Bool) (a x : α) (l : List α) : x ∈ ins le a l ↔ x = a ∨ x ∈ l := by
   rw [(ins_perm le a l).mem_iff]; simp
@@ -1136,9 +1130,6 @@ theorem filter_sortByDate (p : Claim → Bool) (l : List Claim) :
 
 /-! ## the three paths over one history -/
 
-/-- the claim rows of permanode `p`, in arrival order -/
-def World.claimsOf (w : World) (p : Nat) : List Claim := w.claims.filter (fun c => decide (c.pn = p))
-
 /-- the claim rows of permanode `p`, in the key order of the sorted.KeyValue -/
 def World.rowsOf (w : World) (p : Nat) : List Claim := w.rows.filter (fun c => decide (c.pn = p))
 
@@ -1367,5 +1358,42 @@ theorem World.describe_eq (w : World) (m : Mode) (p : Nat) (attr : Bytes) (at_ :
       rw [this]
       simp only [attrFilterOk, Bool.and_true]
       cases signerOk (some s) c <;> cases w.idxIsDeleted (.cl c.id) <;> simp
+
+/-! ## the spec's side conditions -/
+
+theorem counts_noDel (attr : Bytes) (t : Nat) (f : Option Nat) : Spec.counts noDel attr t f = rel attr t f := by
+  funext c; simp [Spec.counts, rel, noDel]
+
+theorem World.good_empty : World.empty.Good := ⟨fun c hc => (by cases hc), fun d hd => (by cases hd)⟩
+
+theorem World.delWF (w : World) (hw : w.WF) (m : Mode) : DelWF (w.deletes m) refOrd w.fuel := by
+  constructor
+  · intro d hd
+    exact (hw d ((w.mem_deletes m d).mp hd)).1
+  · intro d hd
+    have := (hw d ((w.mem_deletes m d).mp hd)).2
+    simp only [refOrd, World.fuel]; omega
+
+theorem isDeleted_bool_iff (ds : List Del) (P : Ref → Bool) :
+    Spec.IsDeleted ds P ↔
+      ∀ x, P x = (ds.filter (fun d => decide (d.target = x))).any (fun d => !P (.cl d.deleter)) := by
+  unfold Spec.IsDeleted
+  constructor
+  · intro h x
+    rw [Bool.eq_iff_iff, h x, List.any_eq_true]
+    constructor
+    · rintro ⟨d, hd, ht, hp⟩
+      exact ⟨d, List.mem_filter.mpr ⟨hd, by simpa using ht⟩, by simp [hp]⟩
+    · rintro ⟨d, hd, hp⟩
+      rw [List.mem_filter] at hd
+      exact ⟨d, hd.1, by simpa using hd.2, by simpa using hp⟩
+  · intro h x
+    rw [h x, List.any_eq_true]
+    constructor
+    · rintro ⟨d, hd, hp⟩
+      rw [List.mem_filter] at hd
+      exact ⟨d, hd.1, by simpa using hd.2, by simpa using hp⟩
+    · rintro ⟨d, hd, ht, hp⟩
+      exact ⟨d, List.mem_filter.mpr ⟨hd, by simpa using ht⟩, by simp [hp]⟩
 
 end Pk.Attr
